@@ -17,6 +17,8 @@ STATES = {
     'openconfirm': [('TICK', 0), ('CONN_OK', 0), ('RX', 0, 'OPEN_OK')],
     'established': [('TICK', 0), ('CONN_OK', 0), ('RX', 0, 'OPEN_OK'), ('RX', 0, 'KA')],
     'established-hold0': [('TICK', 0), ('CONN_OK', 0), ('RX', 0, 'OPEN_OK'), ('RX', 0, 'KA')],
+    # 7 s after the last message: a restart of the hold timer is visible in the timer residues
+    'established-later': [('TICK', 0), ('CONN_OK', 0), ('RX', 0, 'OPEN_OK'), ('RX', 0, 'KA'), ('WAIT', 7.0)],
     'established-2nd-session': [('TICK', 0), ('CONN_OK', 0), ('RX', 0, 'OPEN_OK'), ('RX', 0, 'KA'), ('PEER_CLOSE', 0), ('TICK', 0),
                                 ('CONN_OK', 0), ('RX', 0, 'OPEN_OK'), ('RX', 0, 'KA')],
 }
@@ -75,6 +77,21 @@ def frames_for(seed, mode):
     return out
 
 
+def timers_of(w):
+    return sorted((dc.name, round(dc.time - w.sim.now, 6)) for dc in w.sim.calls)
+
+
+_good_timers = {}
+
+
+def timers_after_good_update(state):
+    if state not in _good_timers:
+        w = W.replay(CFG.get(state, {}), STATES[state], M)
+        w.step(('RX', 0, simple_update(65002)))
+        _good_timers[state] = timers_of(w)
+    return _good_timers[state]
+
+
 def check_one(state, label, frame):
     """deliver one well-framed hostile message in `state`; returns violations"""
     v = []
@@ -105,6 +122,10 @@ def check_one(state, label, frame):
         if closed or new or w.reported_state() != 'ESTABLISHED':
             v.append(('C10|iii|an UPDATE body tore down or disturbed an Established session|%s' % label,
                       {'wrote': new, 'closed': closed, 'agent_state': w.reported_state()}))
+        if not closed and not new and w.reported_state() == 'ESTABLISHED' and timers_of(w) != timers_after_good_update(state):
+            # a peer that sends only UPDATEs the agent cannot decode is alive: the timers must stand as after a good UPDATE
+            v.append(('C10|iii|timers after this UPDATE body differ from those after a well-formed UPDATE|%s' % label,
+                      {'timers': timers_of(w), 'after_good_update': timers_after_good_update(state)}))
         if rep and rep[0][0] == 'on_update_error':
             hexfield = dict(rep[0][1]).get('hex')
             if hexfield != repr(frame[19:]):
